@@ -144,7 +144,8 @@ def body_grid(case):
     try:
         ref = run_proc(proc, sv, np.ascontiguousarray(B), None if W is None else np.ascontiguousarray(W), 1, opt)
     except Exception as e:  # the reference itself is C04/C07 territory: report it under its own label
-        raise Violation(f"grid:reference-exception:{type(e).__name__}", f"{proc} with batch_size=1 raised {type(e).__name__}: {str(e)[:200]}")
+        sfx = ":explicit-solver-unconverged" if (type(e).__name__ == "SolverError" and "solver" in opt) else ""
+        raise Violation(f"grid:reference-exception:{type(e).__name__}{sfx}", f"{proc} with batch_size=1 raised {type(e).__name__}: {str(e)[:200]}")
     with calling(f"{proc}(batch_size={bs!r}, n_samples={n})"):
         got = run_proc(proc, sv, B, W, bs, opt)
     compare(proc, sv, B, W, ref, got, tol, "grid")
@@ -206,7 +207,8 @@ def body_gen(case):
     try:
         ref = run_proc(proc, sv, B, W, 1, opt)
     except Exception as e:
-        raise Violation(f"gen:reference-exception:{type(e).__name__}", f"{proc} with batch_size=1 raised {type(e).__name__}: {str(e)[:200]}")
+        sfx = ":explicit-solver-unconverged" if (type(e).__name__ == "SolverError" and "solver" in opt) else ""
+        raise Violation(f"gen:reference-exception:{type(e).__name__}{sfx}", f"{proc} with batch_size=1 raised {type(e).__name__}: {str(e)[:200]}")
     # row operation applied to the targets (and their weights); the result rows must follow
     op = case["op"]
     idx = list(range(n))
